@@ -21,11 +21,15 @@ def alias_table_lemma(pr):
     ef = ast.unparse(m.assigns['EXPRESSION_FUNCTIONS'])
     shape_ok = ''.join(ef.split()) == ''.join(
         'dict(((expr_fn_name, SCRIPT_FUNCTIONS[script_fn_name]) for expr_fn_name, script_fn_name in EXPRESSION_FUNCTION_MAP.items()))'.split())
-    pr.add_obligation('C03.alias-table.construction-is-the-map-composition', 'unsat' if shape_ok else 'sat', 'exhaustive',
+    # a differently written construction cannot be decided here: undecided, not a violation
+    pr.add_obligation('C03.alias-table.construction-is-the-map-composition', 'unsat' if shape_ok else 'unknown', 'exhaustive',
                       time.time() - t0, detail=ef)
     for k in sorted(set(amap) | set(EXPECTED_ALIASES)):
         ok = k in amap and k in EXPECTED_ALIASES and amap[k] == EXPECTED_ALIASES[k] and amap[k] in script_fns
-        pr.add_obligation(f'C03.alias-table.{k}', 'unsat' if ok else 'sat', 'exhaustive', 0.0,
+        # an alias the pinned table does not know (added after the pinned commit) is undecided, not a violation; a changed or
+        # removed pairing is one
+        verdict = 'unsat' if ok else ('unknown' if k not in EXPECTED_ALIASES and amap.get(k) in script_fns else 'sat')
+        pr.add_obligation(f'C03.alias-table.{k}', verdict, 'exhaustive', 0.0,
                           detail=f'{k}: source maps to {amap.get(k)!r}, documented alias is {EXPECTED_ALIASES.get(k)!r}',
                           function='library.EXPRESSION_FUNCTION_MAP',
                           replay={'reproduced': not ok, 'observed': {'alias': k, 'maps_to': amap.get(k)}})
